@@ -257,6 +257,33 @@ def r_trig_moment_at_zero(m):
     return dict(observed='all agree with quadrature', expected='', violates=False)
 
 
+def r_exponent_lattice_rational(m):
+    """the real ExponentLattice on rational lists with negative bases: every basis vector is a relation, and a known relation is generated"""
+    import sympy as sp
+    from invariants.exponent_lattice import ExponentLattice
+    cases = [(['-1', '2'], [2, 0]), (['-2', '4'], [2, -1]), (['-2', '-2'], [1, -1]), (['2', '-3', '6'], [2, 2, -2]), (['-4', '2', '-1/2'], [1, -1, 1]),
+             (['3', '-1', '9'], [2, 0, -1]), (['-1/2', '-2', '5'], [1, 1, 0])]
+    for bases, rel in cases:
+        bs = [sp.Rational(b) for b in bases]
+        basis = ExponentLattice(bs).compute_basis()
+        basis = [[int(x) for x in v] for v in basis]
+        for v in basis:
+            if sp.prod([b ** e for b, e in zip(bs, v)]) != 1:
+                return dict(observed=f'bases {bases}: basis vector {v} is not a relation', expected='product 1', violates=True, input=bases)
+        if basis:
+            B = sp.Matrix(basis).T
+            try:
+                sol = B.solve(sp.Matrix(rel)) if B.rows == B.cols else sp.linsolve((B, sp.Matrix(rel)))
+                sols = [sol] if not isinstance(sol, sp.sets.sets.Set) else list(sol)
+            except Exception:
+                sols = []
+            ok = any(all(sp.Rational(x).q == 1 for x in s0) for s0 in sols) if sols else False
+        else: ok = False
+        if not ok:
+            return dict(observed=f'bases {bases}: relation {rel} is not generated by {basis}', expected='an integer combination', violates=True, input=bases)
+    return dict(observed='all lists: relations hold and the known relation is generated', expected='', violates=False)
+
+
 def main():
     req = json.load(sys.stdin)
     kind = req['replay']['kind']
